@@ -8,6 +8,7 @@ import (
 	"os/exec"
 	"runtime"
 	"strings"
+	"unicode/utf8"
 
 	spg "go.1password.io/spg"
 
@@ -361,6 +362,9 @@ func c08Case(c *Ctx) {
 		c.Count("fresh_process_evaluations", int64(len(vals)))
 		c.Exec(len(vals))
 		for k := range ins {
+			if !utf8.ValidString(strings.Join(ins[k].Words, "")) {
+				continue // the JSON transport to the child cannot carry these words
+			}
 			if okIn[k] && vals[k] != first[k] {
 				c.Violate("entropy-differs-between-processes", fmt.Sprintf("recipe %s: Entropy()=%v in this process, %v in a fresh process", ins[k].String(), math.Float32frombits(first[k]), math.Float32frombits(vals[k])),
 					map[string]interface{}{"recipe": ins[k].String()})
